@@ -15,6 +15,7 @@ import Driver.FaultsDrv
 import Driver.LegsDrv
 import Driver.SigDrv
 import Driver.XmlBufDrv
+import Driver.CuteDrv
 open Cgreen.Drv
 
 /-- Read all of stdin as lines. -/
@@ -56,6 +57,11 @@ def main (args : List String) : IO UInt32 := do
     return 0
   | ["sigint"] =>
     for l in lines do out.putStrLn (Cgreen.Drv.SG.evalLine l)
+    return 0
+  | ["cute"] =>
+    for b in blocks lines do
+      for l in Cgreen.Drv.CT.runBlock b do out.putStrLn l
+      out.putStrLn "---"
     return 0
   | ["xmlbuf"] =>
     for l in lines do out.putStrLn (Cgreen.Drv.XB.evalLine l)
